@@ -10,11 +10,28 @@ fixed("C05","C05-rvoccf-put-delete","honour ReturnValuesOnConditionCheckFailure"
 fixed("C08","C08-index-key-validate-after-write","validate index key types before writing","PutItem/UpdateItem with a wrong-typed index key returned ValidationException but stored the item")
 fixed("C08","C08-updatetable-attrdefs","failing UpdateTable restores","a rejected UpdateTable still changed the attribute definitions")
 known("C08","C08-batch-partial-application","BatchWriteItem containing an invalid request (missing/ill-typed key or index key) applies the valid requests that precede it and then returns the error: the failing call leaves a trace",
- ["C08|after FAIL:BatchWrite(valid delete, then delete with wrong-typed key)|observe DescribeTable|desc-itemcount",
-  "C08|after FAIL:BatchWrite(valid put, then put with wrong-typed index key)|observe DescribeTable|desc-index-count",
-  "C08|after FAIL:BatchWrite(valid put, then put with wrong-typed index key)|observe DescribeTable|desc-itemcount",
-  "C08|after FAIL:BatchWrite(valid put, then put with wrong-typed index key)|observe GetItem|item",
-  "C08|after FAIL:BatchWrite(valid put, then put without key)|observe DescribeTable|desc-index-count",
-  "C08|after FAIL:BatchWrite(valid put, then put without key)|observe DescribeTable|desc-itemcount",
-  "C08|after FAIL:BatchWrite(valid put, then put without key)|observe GetItem|item"],
+ ["C08|after FAIL:BatchWrite(valid delete, then delete with wrong-typed key)|observe DescribeTable|desc-itemcount@v1", "C08|after FAIL:BatchWrite(valid delete, then delete with wrong-typed key)|observe DescribeTable|desc-itemcount@v2",
+  "C08|after FAIL:BatchWrite(valid put, then put with wrong-typed index key)|observe DescribeTable|desc-index-count@v1", "C08|after FAIL:BatchWrite(valid put, then put with wrong-typed index key)|observe DescribeTable|desc-index-count@v2",
+  "C08|after FAIL:BatchWrite(valid put, then put with wrong-typed index key)|observe DescribeTable|desc-itemcount@v1", "C08|after FAIL:BatchWrite(valid put, then put with wrong-typed index key)|observe DescribeTable|desc-itemcount@v2",
+  "C08|after FAIL:BatchWrite(valid put, then put with wrong-typed index key)|observe GetItem|item@v1", "C08|after FAIL:BatchWrite(valid put, then put with wrong-typed index key)|observe GetItem|item@v2",
+  "C08|after FAIL:BatchWrite(valid put, then put without key)|observe DescribeTable|desc-index-count@v1", "C08|after FAIL:BatchWrite(valid put, then put without key)|observe DescribeTable|desc-index-count@v2",
+  "C08|after FAIL:BatchWrite(valid put, then put without key)|observe DescribeTable|desc-itemcount@v1", "C08|after FAIL:BatchWrite(valid put, then put without key)|observe DescribeTable|desc-itemcount@v2",
+  "C08|after FAIL:BatchWrite(valid put, then put without key)|observe GetItem|item@v1", "C08|after FAIL:BatchWrite(valid put, then put without key)|observe GetItem|item@v2"],
  {"history":["CreateTable tab (h:S, GSI g:S)"],"op":"BatchWriteItem [put {h:k1,a:batch}] [put {a:nokey}] -> ValidationException, yet GetItem(k1) now returns the item"})
+
+known("C19","C19-v2-batchget-absent-unprocessed","SDK v2 BatchGetItem reports keys that have no stored item as UnprocessedKeys instead of leaving them out (pinned by the repository's own TestPutAndGetBatchItem, so it cannot be repaired without editing that test)",
+ ["C19|BatchGet(1)|BatchGetItem|unprocessed-keys@v2","C19|BatchGet(2)|BatchGetItem|unprocessed-keys@v2","C19|BatchGet(3)|BatchGetItem|unprocessed-keys@v2","C19|BatchGet(4)|BatchGetItem|unprocessed-keys@v2"],
+ {"history":["CreateTable tba (h:S)"],"op":"BatchGetItem {tba:[{h:k1}]} on the empty table -> UnprocessedKeys={tba:[{h:k1}]}"})
+known("C19","C19-v1-batchget-missing","the SDK v1 client does not implement BatchGetItem: the call dereferences the nil embedded DynamoDBAPI and panics",
+ ["C19|BatchGet(1)|BatchGetItem|class|want=success|got=PANIC(runtime)@v1","C19|BatchGet(2)|BatchGetItem|class|want=success|got=PANIC(runtime)@v1","C19|BatchGet(3)|BatchGetItem|class|want=success|got=PANIC(runtime)@v1","C19|BatchGet(4)|BatchGetItem|class|want=success|got=PANIC(runtime)@v1"],
+ {"op":"v1 client.BatchGetItem(any input) -> nil pointer dereference"})
+known("C13","C13-update-changes-key","UpdateItem may overwrite or remove the key attributes of the stored item (SET h = :z, REMOVE h, SET r, REMOVE r succeed): the item then shows key attributes different from the key under which it is retrievable. Accepting `SET id = :id` is pinned by the repository's own core TestUpdate, so it cannot be repaired without editing that test",
+ ["C13|Upd(SET h)|UpdateItem|class|want=*reject*|got=success@v1","C13|Upd(SET h)|UpdateItem|class|want=*reject*|got=success@v2",
+  "C13|Upd(REMOVE h)|UpdateItem|class|want=*reject*|got=success@v1","C13|Upd(REMOVE h)|UpdateItem|class|want=*reject*|got=success@v2",
+  "C13|Upd(SET r)|UpdateItem|class|want=*reject*|got=success@v1","C13|Upd(SET r)|UpdateItem|class|want=*reject*|got=success@v2",
+  "C13|Upd(REMOVE r)|UpdateItem|class|want=*reject*|got=success@v1","C13|Upd(REMOVE r)|UpdateItem|class|want=*reject*|got=success@v2"],
+ {"history":["CreateTable tab (h:S)","PutItem {h:k1,a:v}"],"op":"UpdateItem key {h:k1} SET h = :z -> success; GetItem {h:k1} returns an item whose h is z"})
+known("C13","C13-dot-join-collision","two distinct composite keys whose '%v' renderings joined by '.' coincide are one item: (\"a.b\",\"c\") and (\"a\",\"b.c\"), or (\"a.1\",2) and (\"a\",1.2) overwrite each other. The key string format hash+'.'+range is pinned by the repository's own core TestGetKey (\"range.HASH\"), so the encoding cannot be changed without editing that test. Only collisions explained by this encoding are attributed to the finding",
+ ["C13|keypair HR(S,S)|step3 GetItem|GetItem|item|explained-by-dot-join=true@v1","C13|keypair HR(S,S)|step3 GetItem|GetItem|item|explained-by-dot-join=true@v2",
+  "C13|keypair HR(S,N)|step3 GetItem|GetItem|item|explained-by-dot-join=true@v1","C13|keypair HR(S,N)|step3 GetItem|GetItem|item|explained-by-dot-join=true@v2"],
+ {"history":["CreateTable tab (h:S, r:S)","PutItem {h:'a.b', r:'c', v:1}","PutItem {h:'a', r:'b.c', v:2}"],"op":"GetItem {h:'a.b', r:'c'} returns v=2"})
